@@ -862,6 +862,9 @@ func (rule *RuleExpression) checkMatrixExpression(expr *String) *ObjectType {
 	if !ok {
 		return NewEmptyObjectType()
 	}
+	// Copy the type since it is modified below. The expression may evaluate to an object shared
+	// with a context such as `matrix: ${{ inputs }}`
+	matTy = matTy.DeepCopy().(*ObjectType)
 
 	// Consider properties in include section elements since 'include' section adds matrix values
 	incTy, ok := matTy.Props["include"]
